@@ -76,7 +76,7 @@ impl Check for C11 {
     }
     fn runs(&self, tier: Tier) -> u64 {
         match tier {
-            Tier::Quick => 150_000,
+            Tier::Quick => 250_000,
             Tier::Thorough => 3_000_000,
         }
     }
